@@ -193,6 +193,7 @@ class World:
         self.conn_events = []  # (t, "made"/"lost", arg)
         self.conn_callbacks = conn_callbacks
         self.event_hook = None  # fn(msg) invoked inside the event callback
+        self.logic_hook = None  # fn(line) invoked when the processing of a line begins (in that thread)
         self.logic_log = []  # (line, begin_wseq)
         self.gateways = []
         self.closed = False
@@ -203,6 +204,8 @@ class World:
         kwargs.update(override)
         if "event_callback" not in kwargs:
             kwargs["event_callback"] = self._event_callback
+        elif kwargs["event_callback"] is None:
+            kwargs.pop("event_callback")  # the documented default: no callback at all
         gateway = _construct(self.flavour, kwargs, self.broker)
         if self.conn_callbacks:
             gateway.on_conn_made = self._on_conn_made
@@ -220,6 +223,8 @@ class World:
             world.device.mark(("begin", data))
             world.sim.ev("logic", data)
             world.sim.count("logic_calls")
+            if world.logic_hook is not None:
+                world.logic_hook(data)
             idx = len(world.logic_log)
             world.logic_log.append([data, len(world.callbacks), None, None])
             try:
